@@ -6,6 +6,7 @@ package imported from that same working tree (closed import-time configuration i
 not modelled).  Anything outside the subset raises Unsupported (never a violation).
 """
 from __future__ import annotations
+from .core import tid
 import ast
 import builtins
 import inspect
@@ -17,6 +18,7 @@ import functools
 from .core import (z3, PyVal, C, R, A, VABSENT, VNONE, StringSort, IntSort, SeqPV, EMPTY_VALS, lift, lower,
                    simp, head_tag, NotConcrete, mk_bool, mk_int, mk_float, mk_str, mk_bytes, mk_list,
                    mk_dict, mk_obj, is_tag, bytes_to_smt)
+from .core import dn as dn_
 from .values import (Unsupported, PathKilled, PyRaise, SVal, HObj, HDict, HList, HSet, Foreign, Closure,
                      BoundMethod, BuiltinMethod, ForeignMethod, SuperProxy, DictView, Ctx)
 
@@ -53,6 +55,7 @@ class Env:
 
 
 _MISSING = object()
+_TRUTH_CACHE = {}
 
 # ---------------------------------------------------------------------------------------------
 # source index
@@ -88,6 +91,20 @@ def function_ast(fn):
     filename = code.co_filename
     tree, index, _ = module_ast(filename)
     cands = index.get(fn.__qualname__, [])
+    if not cands and fn.__name__ == "<lambda>":
+        lams = [n for n in ast.walk(tree) if isinstance(n, ast.Lambda) and n.lineno <= code.co_firstlineno <= (n.end_lineno or n.lineno)
+                and n.lineno == code.co_firstlineno]
+        if len(lams) == 1:
+            return lams[0]
+        for n in lams:
+            try:
+                c = compile(ast.Expression(body=n), filename, "eval")
+                lam_code = [k for k in c.co_consts if hasattr(k, "co_code")]
+                if lam_code and lam_code[0].co_code == code.co_code and lam_code[0].co_consts == code.co_consts:
+                    return n
+            except Exception:
+                pass
+        raise Unsupported("cannot locate the source of a lambda at %s:%d" % (filename, code.co_firstlineno))
     if not cands:
         raise Unsupported("no source for %s" % fn.__qualname__)
     for n in cands:
@@ -191,11 +208,11 @@ class Interp:
             return v.t
         if isinstance(v, HDict):
             if v.mode == "s":
-                return mk_dict(v.vals, v.n)
+                return self.ctx.dict_term(v.vals, v.n)
             vals = EMPTY_VALS
             for k, x in v.py.items():
                 vals = z3.Store(vals, z3.StringVal(k), self.term_of(x))
-            return mk_dict(vals, z3.IntVal(len(v.py)))
+            return self.ctx.dict_term(vals, z3.IntVal(len(v.py)))
         if isinstance(v, HList):
             if v.mode == "s":
                 return mk_list(v.seq)
@@ -241,7 +258,7 @@ class Interp:
             ht = head_tag(v.t)
             if ht is not None:
                 return ht
-            key = v.t.get_id()
+            key = tid(v.t)
             k = self.ctx.known_tags.get(key)
             if k is not None:
                 return k
@@ -277,7 +294,7 @@ class Interp:
             ht = head_tag(v.t)
             if ht is not None:
                 return ht in tags
-            k = self.ctx.known_tags.get(v.t.get_id())
+            k = self.ctx.known_tags.get(tid(v.t))
             if k is not None:
                 return k in tags
             return simp(z3.Or(*[is_tag(v.t, n) for n in tags]))
@@ -285,7 +302,7 @@ class Interp:
 
     def know_tag(self, v, tag):
         if isinstance(v, SVal) and head_tag(v.t) is None:
-            self.ctx.known_tags[v.t.get_id()] = tag
+            self.ctx.known_tags[tid(v.t)] = tag
 
     # typed accessors (the caller has established the tag)
     def int_term(self, v):
@@ -335,22 +352,17 @@ class Interp:
         return self.from_term(C[tag](term))
 
     def dict_wf(self, t):
-        """Datatype invariant of a dict-valued term (assumed once per term and path)."""
-        key = t.get_id()
+        """Datatype invariant of a dict-valued term (assumed once per term and path): size >= 0 and a
+        non-empty dict has a (witness) key.  The converse (a present key makes the size positive) is
+        instantiated at every membership test (builtins_impl.present_term)."""
+        key = tid(t)
         if key in self.ctx.wf_done:
             return
         self.ctx.wf_done.add(key)
-        n = A["n"](t)
-        vals = A["vals"](t)
-        k = z3.Const("k!wf", StringSort)
+        vals, n = self.ctx.dict_view(t)
         wit = z3.Function("dict_witness", PyVal, StringSort)
-        body = z3.And(
-            n >= 0,
-            z3.Implies(n > 0, z3.Select(vals, wit(t)) != VABSENT),
-            z3.ForAll([k], z3.Implies(z3.Select(vals, k) != VABSENT, n > 0),
-                      patterns=[z3.Select(vals, k)]),
-        )
-        self.ctx.axiom(z3.Implies(is_tag(t, "vdict"), body), "datatype-invariant: dict size n>=0, n>0 <=> some key present")
+        body = z3.And(n >= 0, z3.Implies(n > 0, z3.Select(vals, wit(t)) != VABSENT))
+        self.ctx.axiom(z3.Implies(is_tag(t, "vdict"), body), "datatype-invariant: dict size n >= 0, n > 0 => some key present")
 
     # ---- truthiness, equality -----------------------------------------------------------
     def truth_term(self, v):
@@ -360,6 +372,9 @@ class Interp:
             ht = head_tag(t)
             if ht is None or ht == "vdict":
                 self.dict_wf(t)
+            cached = _TRUTH_CACHE.get(tid(t))
+            if cached is not None:
+                return cached
             parts = [
                 z3.And(is_tag(t, "vbool"), A["b"](t)),
                 z3.And(is_tag(t, "vint"), A["i"](t) != 0),
@@ -367,14 +382,16 @@ class Interp:
                 z3.And(is_tag(t, "vstr"), z3.Length(A["s"](t)) > 0),
                 z3.And(is_tag(t, "vbytes"), z3.Length(A["y"](t)) > 0),
                 z3.And(is_tag(t, "vlist"), z3.Length(A["l"](t)) > 0),
-                z3.And(is_tag(t, "vdict"), A["n"](t) > 0),
+                z3.And(is_tag(t, "vdict"), dn_(t) > 0),
                 is_tag(t, "vobj"),
             ]
-            return simp(z3.Or(*parts))
+            r = simp(z3.Or(*parts))
+            _TRUTH_CACHE[tid(t)] = r
+            return r
         if isinstance(v, HDict):
             if v.mode == "c":
                 return len(v.py) > 0
-            self.dict_wf(mk_dict(v.vals, v.n))
+            self.dict_wf(self.ctx.dict_term(v.vals, v.n))
             return simp(v.n > 0)
         if isinstance(v, HList):
             if v.mode == "c":
@@ -735,8 +752,11 @@ class Interp:
 
     def call_closure(self, clo, args, kwargs):
         qn = clo.qualname
+        if self.ctx.opaque_specs and clo.live is not None and getattr(clo.live, "__specfn__", False):
+            from . import contracts
+            return contracts.spec_apply(self, clo.live, list(args))
         contract = self.cfg.contracts.get(qn)
-        if contract is not None and not contract.get("_verifying"):
+        if contract is not None:
             from . import contracts
             return contracts.apply_contract(self, contract, clo, args, kwargs)
         if qn in self.cfg.merge_calls and not self.ctx.frozen:
